@@ -34,3 +34,38 @@ Proof.
   pose proof (total_claimable_le_paid sp spf ssc isc users t ops true Hsp Hspf Hssc Q HK) as B1.
   fold rs0 rs in B0, B1. unfold spread_bal in B0, B1. simpl in B0, B1. rewrite F, S. split; assumption.
 Qed.
+
+(* ---------- the incentive account ---------- *)
+From Osmo Require Import C08.IncOps C08.IncHist C08.Inc.
+
+Lemma sum_claims_inc_spec : forall rs l c,
+  sum_claims (fun id => match claimable_incentives rs id with
+                        | Some (c, f) => Some (fst c + fst f, snd c + snd f) | None => None end) (map ps_id l) = Some c ->
+  (forall p, In p l -> claimable_incentives rs (ps_id p) <> None) /\
+  fst c = zsum (iclaim_of false rs) l /\ snd c = zsum (iclaim_of true rs) l.
+Proof.
+  induction l as [|a l IH]; intros c H; simpl in H.
+  - inversion H; subst. split; [intros p []|]. split; reflexivity.
+  - destruct (claimable_incentives rs (ps_id a)) as [[ca fa]|] eqn:EA; [|discriminate H].
+    match type of H with match ?X with _ => _ end = _ => destruct X as [t|] eqn:ET; [|discriminate H] end. inversion H; subst. clear H.
+    destruct (IH t eq_refl) as [A [B C]]. split; [|split].
+    + intros p [Hp|Hp]; [subst p; rewrite EA; discriminate|apply A; exact Hp].
+    + simpl. unfold iclaim_of at 1. rewrite EA, B. reflexivity.
+    + simpl. unfold iclaim_of at 1. rewrite EA, C. reflexivity.
+Qed.
+
+(* the incentive conjunct of Solv in its integer-robust form: whenever the claim queries succeed, everything the open positions can
+   claim or forfeit is covered by the incentive account *)
+Theorem inc_covered_reachable : forall sp spf ssc isc users t ops c, 0 < sp -> 0 <= spf <= 500000000000000000 -> 0 < isc ->
+  let rs0 := rinit sp spf ssc isc users t in
+  let rs := rrun rs0 ops in
+  (hist_icost rs0 ops + Z.of_nat (length (s_pos (r_base rs)))) * Z.of_nat NU < 2 * isc ->
+  inc_claims rs = Some c ->
+  fst c <= fst (b_inc (s_bank (r_base rs))) /\ snd c <= snd (b_inc (s_bank (r_base rs))).
+Proof.
+  intros sp spf ssc isc users t ops c Hsp Hspf Hisc rs0 rs HK HC. unfold inc_claims, open_ids in HC.
+  destruct (sum_claims_inc_spec rs _ c HC) as [Q [F S]].
+  pose proof (total_incentives_le_paid sp spf ssc isc users t ops false Hsp Hspf Hisc Q HK) as B0.
+  pose proof (total_incentives_le_paid sp spf ssc isc users t ops true Hsp Hspf Hisc Q HK) as B1.
+  fold rs0 rs in B0, B1. unfold inc_bal in B0, B1. simpl in B0, B1. rewrite F, S. split; assumption.
+Qed.
